@@ -30,7 +30,21 @@ class VerifZeroError(exceptions.JsonRpcError):
     message = 'zero'
 
 
+class VerifScopedBase(exceptions.JsonRpcError):
+    """a base class with a resolution of its own: only its own subclasses count (the recipe of the documentation)"""
+
+    @classmethod
+    def get_error_cls(cls, code, default):
+        return next(iter((c for c in cls.__subclasses__() if getattr(c, 'code', None) == code)), default)
+
+
+class VerifScopedChild(VerifScopedBase):
+    code = 1
+    message = 'scoped'
+
+
 CLASSES = {c.__name__: c for c in (
+    VerifScopedBase, VerifScopedChild,
     VerifZeroError,
     exceptions.JsonRpcError, VerifBaseError, VerifCustomError, exceptions.ParseError,
     exceptions.InvalidRequestError, exceptions.MethodNotFoundError, exceptions.InvalidParamsError,
